@@ -9,7 +9,7 @@ pub fn def() -> PropDef {
         builds: BOTH,
         rule: "every text over {SP,TAB,L,NL,CRLF,NBSP,L,SHY (non-whitespace sharing NBSP's UTF-8 lead byte)} up to length N; dedent compared line-wise with the reference (margin = longest common whitespace prefix of the lines containing a non-whitespace character); newline count preserved; idempotence (no line ending in a lone CR); dedent(indent(s,p)) == dedent(s) for 4 whitespace prefixes (CR-free s); non-trivial = >= 2 lines with content and a non-empty margin on at least one of them",
         assumptions: BASE_ASSUMPTIONS,
-        floor: |t| t.pick(10_000, 500_000),
+        floor: |t| t.pick(10_000, 30_000),
         run,
     }
 }
